@@ -275,6 +275,26 @@ int main(int argc, char** argv) {
     printf("Poll: %zu registered descriptors, %s(%d) (%s before); after removing each of the %zu registered descriptors once: empty() = %d\n",
         n, op.c_str(), key, present ? "present" : "absent", want.size(), (int)p.empty());
     RCHECK(p.empty(), "Poll is not empty after every registered descriptor was removed once (re-adding descriptor %d created a duplicate entry)", key);
+    if (op == "add") {
+      // "re-adding replaces": observed through poll() on a pipe with one byte pending -- after add(r, POLLIN); add(r, <mask without POLLIN>)
+      // the read end must not be reported readable any more
+      int fds[2];
+      if (::pipe(fds) == 0) {
+        char c = 'x';
+        if (::write(fds[1], &c, 1) == 1) {
+          for (short second : {(short)0, (short)POLLOUT}) {
+            Poll q;
+            q.add(fds[0], POLLIN);
+            q.add(fds[0], second);
+            auto res = q.poll(0);
+            short got = res.count(fds[0]) ? res.at(fds[0]) : 0;
+            printf("add(r, POLLIN); add(r, 0x%X); poll(0) reports 0x%X for r\n", (unsigned)second, (unsigned)(unsigned short)got);
+            RCHECK(!(got & POLLIN), "re-adding a descriptor with mask 0x%X kept POLLIN from the earlier registration (poll reports 0x%X)", (unsigned)second, (unsigned)(unsigned short)got);
+          }
+        }
+        ::close(fds[0]); ::close(fds[1]);
+      }
+    }
     return 0;
   }
   if (m == "scoped_fd") {
